@@ -367,7 +367,11 @@ func replayCandidates(opt *Options, w *World, results []*ObResult) ([]*Confirmed
 		}
 		for _, c := range cs {
 			// one process per case: a crash (OOM, fatal error) must not hide the others
-			res, txt, _ := nb.run([]NativeCase{c.c}, 120*time.Second)
+			limit := 120 * time.Second
+			if c.v.Kind == "hang" {
+				limit = 30 * time.Second
+			}
+			res, txt, _ := nb.run([]NativeCase{c.c}, limit)
 			nr := res[c.c.ID]
 			outcome := ""
 			if nr != nil {
@@ -382,6 +386,14 @@ func replayCandidates(opt *Options, w *World, results []*ObResult) ([]*Confirmed
 				if outcome == "" && (strings.Contains(txt, "fatal error:") || strings.Contains(txt, "panic:")) && !strings.Contains(txt, "out of memory") && !strings.Contains(txt, "cannot allocate") {
 					ok = true
 					outcome = "crash: " + firstLineWith(txt, "fatal error:", "panic:")
+				}
+			case "hang":
+				if outcome == "" && strings.Contains(txt, "test timed out") {
+					ok = true
+					outcome = "hang: the natively compiled code did not return within 30 s on this input"
+				} else if outcome == "" && (strings.Contains(txt, "out of memory") || strings.Contains(txt, "cannot allocate")) {
+					ok = true
+					outcome = "hang: unbounded loop exhausted memory natively"
 				}
 			case "alloc":
 				if nr != nil && nr.Alloc >= 1<<20 {
@@ -412,6 +424,9 @@ func replayCandidates(opt *Options, w *World, results []*ObResult) ([]*Confirmed
 			} else {
 				if opt.Debug {
 					fmt.Fprintln(os.Stderr, trunc(txt, 4000))
+				}
+				if c.v.Kind == "hang" {
+					continue // the loop budget was too small for this tree, not a hang: stays an unwind note
 				}
 				unconfirmed = append(unconfirmed, fmt.Sprintf("obligation=%s %s %s at %s: solver model did not reproduce natively (native outcome %q)", c.r.Ob.ID(), c.v.Kind, c.v.Label, c.v.Site, trunc(outcome, 200)))
 			}
